@@ -370,6 +370,20 @@ class Ctx:
             raise ToolError("binding self-test failed: corrupted trace of %s was accepted: %s" % (name, g[idx][:500]))
         self.log("binding self-test %s: corrupted event %d rejected (ok)" % (name, idx))
 
+    def tlaps(self, rel, timeout=900):
+        """run the TLA+ proof system on spec/<rel>; extra evidence only (obligations / discharged)"""
+        d = os.path.join(self.spec, os.path.dirname(rel))
+        shutil.rmtree(os.path.join(d, ".tlacache"), ignore_errors=True)
+        rc, out = sh(["tlapm", "--threads", "8", os.path.basename(rel)], cwd=d, timeout=timeout)
+        m = re.search(r"All (\d+) obligations? proved", out)
+        shutil.rmtree(os.path.join(d, ".tlacache"), ignore_errors=True)
+        if not m:
+            raise ToolError("tlapm did not prove %s:\n%s" % (rel, out[-2000:]))
+        n = int(m.group(1))
+        self.cov.setdefault("proofs", []).append({"module": rel, "obligations": n, "discharged": n,
+                                                   "checker_cmd": "tlapm --threads 8 " + rel})
+        self.log("TLAPS %s: all %d obligations proved" % (rel, n))
+
     # ------------------------------------------------------------------ direct verdicts
     def violation(self, text, replay_obj):
         rp = os.path.join(self.replays, "%s-%d.json" % (self.pid, len(self.violations)))
